@@ -284,6 +284,9 @@ func (r *PhaseReconciler) teardownPhaseObject(
 		r.ownerStrategy.RemoveOwner(owner.ClientObject(), object)
 		objectPatch := map[string]interface{}{
 			"metadata": map[string]interface{}{
+				// Only patch the revision that was inspected above,
+				// so owners added or removed by others in the meantime are not overwritten.
+				"resourceVersion": currentObj.GetResourceVersion(),
 				"labels": map[string]interface{}{
 					constants.DynamicCacheLabel: nil,
 				},
